@@ -133,3 +133,62 @@ func C19LookupDuringRefresh() {
 	}
 	sym.Reach("lookup-refresh-done")
 }
+
+// C19SharedCalls: two goroutines get a client for the same endpoint from the session (they share one
+// connection) and call the same method with different arguments at the same time: the two call frames
+// carry distinct message ids (replies are routed by id: with equal ids one caller would get the
+// other's answer), and each caller gets the answer sent for its own frame.
+func C19SharedCalls() {
+	var streams []*zzStream
+	sym.Replace("github.com/lugu/qiloop/bus.SelectEndPoint", func(addrs []string, user, token string) (string, bus.Channel, error) {
+		st := newZZStream()
+		streams = append(streams, st)
+		return addrs[0], bus.NewChannel(net.NewEndPoint(st), bus.DefaultCap()), nil
+	})
+	s := &Session{poll: map[string]bus.Client{}}
+	info := services.ServiceInfo{Name: "a", ServiceId: 2, Endpoints: []string{"tcp://one"}}
+	type res struct {
+		payload []byte
+		err     error
+	}
+	out := make([]chan res, 2)
+	for i := 0; i < 2; i++ {
+		out[i] = make(chan res, 1)
+		go func(i int) {
+			c, err := s.client(info)
+			if err != nil {
+				out[i] <- res{nil, err}
+				return
+			}
+			p, err := c.Call(nil, 2, 1, 100, []byte{byte(0xA0 + i)})
+			out[i] <- res{p, err}
+		}(i)
+	}
+	sym.Quiesce()
+	sym.Assert(len(streams) >= 1, "dialled")
+	st := streams[0]
+	for _, x := range streams {
+		if !x.isClosed() {
+			st = x
+		}
+	}
+	calls := st.sentMessages()
+	sym.Assert(len(calls) == 2, "shared-calls/frames-on-the-shared-connection")
+	if len(calls) != 2 {
+		return
+	}
+	sym.Assert(calls[0].Header.ID != calls[1].Header.ID, "shared-calls/message-ids-distinct")
+	// answer each frame with its own argument echoed
+	for _, f := range calls {
+		h := f.Header
+		h.Type = net.Reply
+		st.inject(net.NewMessage(h, f.Payload))
+	}
+	sym.Quiesce()
+	for i := 0; i < 2; i++ {
+		r := <-out[i]
+		sym.Assert(r.err == nil, "shared-calls/call-failed")
+		sym.Assert(len(r.payload) == 1 && r.payload[0] == byte(0xA0+i), "shared-calls/answer-of-another-call")
+	}
+	sym.Reach("shared-calls-done")
+}
